@@ -65,6 +65,7 @@ Case genRc(bool open) {
   }
   c.p["paths"] = pp;
   ST.count("snap_pct_" + std::to_string(snapPct));
+  if (G::chance(35)) { c.i["route"] = 1; c.i["dprec"] = G::range(0, 4); }
   return c;
 }
 
@@ -74,6 +75,26 @@ bool inDomain(const R4& r, const Paths64& pp) {
   if (std::abs(r.l) > lim || std::abs(r.r) > lim || std::abs(r.t) > lim || std::abs(r.b) > lim) return false;
   return O::maxAbs(pp) <= lim;
 }
+
+// Route to the operation (chosen per case): 0 the Rect64/Paths64 API; 1 the RectD/PathsD overloads at precision p, fed with
+// the same input divided by 10^p and with the results multiplied back (so that the integer oracle applies unchanged).
+struct DRoute {
+  int route = 0, prec = 0;
+  double sc = 1;
+  explicit DRoute(const Case& c) { route = (int)c.I("route", 0); prec = (int)c.I("dprec", 0); sc = std::pow(10.0, prec); if (route) ST.count("route_RectD_precision_" + std::to_string(prec)); }
+  PathD down(const Path64& p) const { PathD r; for (auto& q : p) r.emplace_back((double)q.x / sc, (double)q.y / sc); return r; }
+  Paths64 up(const PathsD& pp) const { Paths64 r; for (auto& p : pp) { Path64 q; for (auto& pt : p) q.emplace_back((int64_t)std::llround(pt.x * sc), (int64_t)std::llround(pt.y * sc)); r.push_back(q); } return r; }
+  RectD rd(const Rect64& r) const { return RectD((double)r.left / sc, (double)r.top / sc, (double)r.right / sc, (double)r.bottom / sc); }
+  Paths64 clip(const Rect64& r, const Paths64& in, bool lines) const {
+    if (!route) return lines ? RectClipLines(r, in) : RectClip(r, in);
+    PathsD d; for (auto& p : in) d.push_back(down(p));
+    return up(lines ? RectClipLines(rd(r), d, prec) : RectClip(rd(r), d, prec));
+  }
+  Paths64 clip(const Rect64& r, const Path64& in, bool lines) const {
+    if (!route) return lines ? RectClipLines(r, in) : RectClip(r, in);
+    return up(lines ? RectClipLines(rd(r), down(in), prec) : RectClip(rd(r), down(in), prec));
+  }
+};
 
 #ifndef PROP_C09
 // ---------------------------------------------------------------------------
@@ -109,6 +130,7 @@ bool edgeAlongSide(const Path64& p, const R4& r) {
   return false;
 }
 
+
 Verdict judge(const Case& c) {
   Verdict v;
   R4 r = rectOf(c);
@@ -116,10 +138,11 @@ Verdict judge(const Case& c) {
   if (!inDomain(r, paths) || paths.empty()) { v.discard = true; return v; }
   Rect64 rect(r.l, r.t, r.r, r.b);
   Path64 rp = {Point64(r.l, r.t), Point64(r.r, r.t), Point64(r.r, r.b), Point64(r.l, r.b)};
-  Paths64 batch = RectClip(rect, paths);
+  DRoute dr(c);
+  Paths64 batch = dr.clip(rect, paths, false);
   Paths64 concat;
   for (auto& path : paths) {
-    Paths64 res = RectClip(rect, path);
+    Paths64 res = dr.clip(rect, path, false);
     v.evals++;
     concat.insert(concat.end(), res.begin(), res.end());
     if (path.size() < 3) { if (!res.empty()) { v.fail("a path with fewer than 3 points produced output"); return v; } continue; }
@@ -225,9 +248,10 @@ Verdict judge(const Case& c) {
   const Paths64& paths = c.P("paths");
   if (!inDomain(r, paths) || paths.empty()) { v.discard = true; return v; }
   Rect64 rect(r.l, r.t, r.r, r.b);
-  Paths64 batch = RectClipLines(rect, paths), concat;
+  DRoute dr(c);
+  Paths64 batch = dr.clip(rect, paths, true), concat;
   for (auto& line : paths) {
-    Paths64 res = RectClipLines(rect, line);
+    Paths64 res = dr.clip(rect, line, true);
     v.evals++;
     concat.insert(concat.end(), res.begin(), res.end());
     if (line.size() < 2) continue;
